@@ -16,7 +16,7 @@ OPAQUE = ("std::time::Instant", "std::time::Duration", "std::net::SocketAddr")
 
 
 class Run:
-    def __init__(self, prog, key, names=None, hooks=None, pre_hooks=None, local_models=None, setup=None, track_content=False, bool_vars=True, max_parts=None):
+    def __init__(self, prog, key, names=None, hooks=None, pre_hooks=None, local_models=None, setup=None, track_content=False, bool_vars=True, max_parts=None, def_models=None):
         self.prog = prog
         self.it = it = Interp(prog, M, INVARIANTS, trace=__import__("os").environ.get("E2_TRACE"))
         it.bool_vars = bool_vars
@@ -27,6 +27,7 @@ class Run:
         it.ret_hooks.update(hooks or {})
         it.pre_hooks.update(pre_hooks or {})
         it.local_models.update(local_models or {})
+        it.def_models.update(def_models or {})
         body = prog.bodies[key]
         self.fr = fr = Frame("E[%s]" % key.rsplit("::", 1)[-1], body, 0, frozenset())
         st = State()
